@@ -30,6 +30,8 @@ def run(rep, tier):
             aff.r_est(rep, ctx, m, t)
     rep.rule("R-TOL-FROM", "a tolerance passed as a vector stays per-component: every From<sequence> for Tolerance is evaluated exactly on vectors of length 1..4 for every coincidence pattern of the entries and component i reads back entry i")
     tol.r_tol_from(rep, f)
+    rep.rule("R-TOL-ROUTE", "at every internal call that passes both tolerances on (hinit and helpers) the callee's atol receives the caller's atol and its rtol the caller's rtol")
+    tol.r_tol_route_helpers(rep, f)
     rep.explanation = ("Decides tolerance PLUMBING, not accuracy: each component is scaled by its own atol[i] + rtol[i]*|y|, transformations of the tolerances are applied once, "
                        "the accept test is `normalised error <= 1`, the normalised quantity is scale- and copy-free, and it is the embedded estimator of the right order. "
                        "NOT decided: the error bound ~ steps*(atol+rtol|y|), monotonicity in the tolerance, RK4's observed convergence rate, controller tuning - numerical consequences of trajectories.")
